@@ -15,9 +15,10 @@ import (
 // C16 (SQL side): the SQL mapping manager (MapStringsToUUIDs, batchFromUUIDs /
 // MapUUIDsToStrings) on the database model's keto_uuid_mappings table.
 
-// adversarial names: empty, case, trailing blank, two Unicode spellings of one
-// glyph, a separator-looking name
-var c16Pool = []string{"", "a", "A", "é", "é", "a ", "N:o#r@s"}
+// adversarial names: empty, a NUL byte (alone and as the only difference to
+// another name), case, two Unicode spellings of one glyph, trailing blank, a
+// separator-looking name, invalid UTF-8, a control character
+var c16Pool = []string{"", "a", "a\x00", "\x00", "A", "\u00e9", "e\u0301", "a ", "N:o#r@s", "\xff", "a\n"}
 
 func c16Reset() {
 	db = &dbState{}
